@@ -169,8 +169,12 @@ func (c *Ctx) emitModel() (*emitModel, error) {
 	for name, arm := range vm.Arms {
 		m.isa[name] = arm.summary()
 	}
-	for name := range emitPrims {
+	for name, role := range emitPrims {
 		if f, _ := c.find(name); f == nil {
+			if role == "markInit" || role == "nop" {
+				// written in place, its effect is recognised from the store itself (markInit) or it has none
+				continue
+			}
 			m.Missing = append(m.Missing, name)
 		}
 	}
@@ -279,6 +283,8 @@ func (m *emitModel) hooks() Hooks {
 			return constV(constant.MakeBool(false)), true
 		case "<parser>.scope.localCount":
 			return linV(p.L), true
+		case "<parser>.scope.depth":
+			return tagV("scopedepth", ""), true
 		}
 		// rule.prec / rule.prefix / rule.infix on a value obtained from getRule
 		if sel, ok := e.(*ast.SelectorExpr); ok {
@@ -369,6 +375,11 @@ func (m *emitModel) hooks() Hooks {
 	h.Store = func(in *Interp, st *State, lhs ast.Expr, op token.Token, v Value) bool {
 		p := pay(st)
 		switch fp := c.fieldPath(lhs); {
+		case c.isMarkInitTarget(lhs) && op == token.ASSIGN && v.K == vTag && v.Tag == "scopedepth":
+			// markInitialized, written in place: locals[localCount-1].depth = scope.depth
+			p.events = append(p.events, "markInit")
+			p.trace = append(p.trace, "init")
+			return true
 		case fp == "<parser>.scope.localCount" || strings.HasPrefix(fp, "<parser>.scope.locals") || fp == "<parser>.scope.depth":
 			p.problems = append(p.problems, c.pos(lhs.Pos())+": the scope tables are modified outside beginScope/endScope/addLocal/markInitialized")
 			return true
@@ -885,4 +896,22 @@ func min64(a, b int64) int64 {
 		return a
 	}
 	return b
+}
+
+// isMarkInitTarget: lhs is <scope>.locals[<scope>.localCount-1].depth.
+func (c *Ctx) isMarkInitTarget(lhs ast.Expr) bool {
+	sel, ok := stripParens(lhs).(*ast.SelectorExpr)
+	if !ok || sel.Sel.Name != "depth" {
+		return false
+	}
+	ix, ok := stripParens(sel.X).(*ast.IndexExpr)
+	if !ok || !strings.HasSuffix(c.fieldPath(ix.X), ".locals") {
+		return false
+	}
+	be, ok := stripParens(ix.Index).(*ast.BinaryExpr)
+	if !ok || be.Op != token.SUB || !strings.HasSuffix(c.fieldPath(be.X), ".localCount") {
+		return false
+	}
+	k, isC := c.intConst(be.Y)
+	return isC && k == 1
 }
